@@ -510,11 +510,18 @@ fn generate_tiny(rng: &mut Rng) -> (HistScenario, String) {
         _ => Policy::PerCaller(rng.next_u64()),
     };
     let mut steps = Vec::new();
+    // half of the tiny runs draw from a fixed set of texts (one per content class), so that the
+    // very same content comes back: G, B, G on one id, or G moving from id to id
+    let fixed_texts = rng.pct(50);
     for _ in 0..n_steps {
         serial += 1;
         let op = match rng.below(10) {
             0..=5 => {
-                let c = match rng.below(7) {
+                let class = rng.below(7);
+                if fixed_texts {
+                    serial = 100 + class as u64;
+                }
+                let c = match class {
                     0 | 1 => Content::Doc(base(Kind::Interface, "p", "IFoo", vec!["p.Bar".to_owned()], uses("Bar"), serial)),
                     2 => Content::Doc(base(Kind::Parcelable, "p", "Bar", vec![], vec![], serial)),
                     3 => Content::Doc(base(Kind::Enum, "p", "Bar", vec![], vec![], serial)),
@@ -709,7 +716,21 @@ pub fn generate(rng: &mut Rng, prop: Prop, thorough: bool) -> (HistScenario, Str
             1 => {
                 // perturbation of an existing document
                 let (p, d) = rng.pick(&docs).clone();
-                match rng.below(10) {
+                match rng.below(12) {
+                    10 | 11 => {
+                        // broken for a moment, then the very same text again (editor: type, undo)
+                        let broken = if rng.pct(50) {
+                            Content::Raw(rng.pick(&["", "parcelable", "}{", "pack"]).to_string())
+                        } else {
+                            Content::Raw(gen::gen_malformed(rng, &d))
+                        };
+                        steps.push(mk(rng, Op::Add { path: p.clone(), content: broken }, "break"));
+                        if rng.pct(50) {
+                            steps.push(mk(rng, Op::Validate { times: 1 }, "validate"));
+                        }
+                        let c = st.live[&pb(&p)].1.clone();
+                        steps.push(mk(rng, Op::Add { path: p, content: c }, "restore_same_text"));
+                    }
                     0..=5 => {
                         let what = rng.below(4);
                         let (n, tag) = rewrite_keeping_facts(rng, &mut st, &d, what);
